@@ -734,6 +734,28 @@ def run(ck):
             len(handed) == 1 and [u(a) for a in handed[0].args] == [upd[0].func.value.id]
     ck.ob('PROV-node-attributes', mp.loc(nodes_fn), ok, 'a node of a .mapping file gets the attributes of its block identifier *updated with* those written on its own line '
           '(the line wins), and that dictionary is what the builder receives', key='PROV-node-attributes|precedence')
+    # edges: a block and a link get the edges their interactions imply (make_edges_from_interactions); a modification is loaded with exactly the edges its
+    # [ edges ] section declares -- FFDirector.finalize_section builds edges for the first two only
+    fsd = ck.need(method(ffd, 'finalize_section'), 'FFDirector.finalize_section vanished')
+    ck.analysed(ff, fsd)
+    # (which object: read off the guard the call stands under -- `if self.current_block is not None:` .. -- so that a helper taking the object as a parameter
+    # does not hide it)
+    recv = []
+    for c_, _st, cnd_, e_ in calls_with_env(fsd, lambda c_: call_attr(c_) == 'make_edges_from_interactions'):
+        guards = sorted({w_ for k_ in flow.atoms_of(cnd_) for w_ in ('current_block', 'current_link', 'current_modification') if w_ in ' '.join(map(str, k_))})
+        recv.append('self.' + guards[0] if len(guards) == 1 else u(flow.subst(c_.func.value, e_)))
+    recv.sort()
+    ck.ob('PROV-sections', ff.loc(fsd), recv == ['self.current_block', 'self.current_link'], 'edges are derived from the interactions for the block and the link being finished, '
+          'not for a modification (receivers: {})'.format(recv), key='PROV-sections|edges-from-interactions')
+    # the first block fetched under [ from blocks ] / [ to blocks ] is instantiated with no default attributes, like the later ones that are merged in (an atom
+    # of a modification declares no resname: none is invented)
+    mbm = idx.mod(MAP)
+    ab = ck.need(mbm.functions.get('MappingBuilder._add_block'), 'MappingBuilder._add_block vanished')
+    ck.analysed(mbm, ab)
+    tmc = [c_ for c_ in walk_local(ab) if isinstance(c_, ast.Call) and call_attr(c_) == 'to_molecule']
+    okd = len(tmc) == 1 and kwarg(tmc[0], 'default_attributes') is not None and try_fold(kwarg(tmc[0], 'default_attributes'), default=None) == {}
+    ck.ob('PROV-map-blocks', mbm.loc(ab), okd, 'MappingBuilder._add_block instantiates the first block with `default_attributes={}` (no attribute that the force field does not declare)',
+          key='PROV-map-blocks|no-defaults')
     # the origin / target blocks of a .mapping file are instantiated through Block.to_molecule: each atom gets what the force field declares for *it*
     from .c12 import to_molecule_fresh_atom
     to_molecule_fresh_atom(ck, 'PROV-map-blocks')
